@@ -9,21 +9,35 @@ class Server:
         self.table = Table(F, 'server')
         t = self.table
         self.insert = t.one(t.inserting(), 'inserting')
-        rem = [m for m in t.removing() if not t._has(m, 'DelayQueue::poll_expired') and not (m.impl_of and (m.impl_of.get('trait') or '').endswith('Drop'))]
+        rem = [m for m in t.removing() if not t._has(m, 'DelayQueue::poll_expired') and not (m.impl_of and (m.impl_of.get('trait') or '').endswith('Drop'))
+               and not t.is_helper(m)]   # private helpers of the table are judged through the entry points that call them
         self.poll_next = F.trait_method('Stream', 'server::BaseChannel', 'poll_next')
         self.start_send = F.trait_method('Sink', 'server::BaseChannel', 'start_send')
         # roles by use, not by name or by effect: the removal reached from the Cancel arm of the channel's
         # stream, and the removal reached from the channel's sink
         from .common import reachable_local_fns
         self.cancel_sites = []
-        for g in reachable_local_fns(F, self.poll_next):
+        reach_ = reachable_local_fns(F, self.poll_next)
+        reach_ids = {x.id for x in reach_}
+        for g in reach_:
             for bb, c in g.calls():
                 m = F.callee_fn(c)
                 if m in rem:
                     kp = self.key_param(m)
-                    rs = P.root(P.operand(g, c['args'][kp - 1], at=bb))
+                    # the id may travel through private helpers of the channel: follow parameters, but only into call sites reachable from the stream's poll
+                    rs = P.root(P.operand(g, c['args'][kp - 1], at=bb), through_params=True, callers=reach_ids)
                     if rs and all(self.is_transport_item(r) and ('v', 'Cancel') in p for r, p in rs):
                         self.cancel_sites.append((g, bb, c, m))
+        # blocks of the stream's poll from which a cancel site is reached (the call itself, or a call to a helper that contains it)
+        self.cancel_blocks = set()
+        for g, bb, c, m in self.cancel_sites:
+            if g.id == self.poll_next.id:
+                self.cancel_blocks.add(bb)
+            else:
+                for b2, c2 in self.poll_next.calls():
+                    h = F.callee_fn(c2)
+                    if h is not None and any(x.id == g.id for x in reachable_local_fns(F, h, depth=4)):
+                        self.cancel_blocks.add(b2)
         ms = {m.id: m for _, _, _, m in self.cancel_sites}
         self.aborting = list(ms.values())[0] if len(ms) == 1 else None
         resp = {}
